@@ -11551,7 +11551,8 @@ tsk_table_collection_read_format_data(tsk_table_collection_t *self, kastore_t *s
         ret = tsk_set_kas_error(ret);
         goto out;
     }
-    if (len != TSK_UUID_SIZE) {
+    /* The uuid is handled as a string from here on, so it must not contain NULs */
+    if (len != TSK_UUID_SIZE || memchr(uuid, 0, TSK_UUID_SIZE) != NULL) {
         ret = tsk_trace_error(TSK_ERR_FILE_FORMAT);
         goto out;
     }
